@@ -76,8 +76,16 @@ def check_run(run: WorkerRun, model: Model, res: Result, label: str) -> None:
     plans = {j["id"]: j for j in sc["jobs"]}
     horizon = next((e["t"] for e in run.events if e["kind"] == "run_horizon"), None)
     # executions cut off by the end of the observation window are not judged
-    ds = [d for d in deliveries(run) if (d["call_t"] is not None or d["end_t"] is not None)
-          and not (horizon is not None and not d["calls"] and (d["end_t"] is None or d["end_t"] >= horizon))]
+    def cut(d):
+        if horizon is None:
+            return False
+        if not d["calls"] and (d["end_t"] is None or d["end_t"] >= horizon):
+            return True
+        # whatever was still going on within the last millisecond before the window closed may have been cut short
+        # (e.g. the result store that follows the broker call)
+        last = max(x for x in (d["call_t"], d["end_t"], d["start_t"]) if x is not None)
+        return last >= horizon - 1000
+    ds = [d for d in deliveries(run) if (d["call_t"] is not None or d["end_t"] is not None) and not cut(d)]
     reqs, meta = [], []
     hb = run.results is not None
     sf = bool(sc.get("store_fail_all", False))
